@@ -464,6 +464,8 @@ int main(int argc, char** argv) {
   long fThreads = H.paramInt("threads", 0);
   uint64_t salt = (uint64_t)H.paramInt("salt", 0); // makes the runs of one check draw different cases
   long maxNodesP = H.paramInt("maxnodes", 0);
+  // larger inputs (thorough runs). A run parameter rather than --tier so that a replay regenerates the same case.
+  bool big = H.paramInt("big", 0) != 0;
   std::string fShape = H.param("shape");
   std::map<std::pair<std::string, std::string>, std::vector<const Entry*>> groups;
   for (auto& e : registry()) {
@@ -481,10 +483,24 @@ int main(int argc, char** argv) {
     fprintf(stderr, "c11: no registry entry matches the filters\n");
     return 2;
   }
-  std::vector<std::vector<const Entry*>*> groupList;
+  // case choice: family (weighted), then operation of that family (weighted), then one instantiation
+  auto famWeight = [](const std::string& f) -> unsigned {
+    if (f == "LC_CSR_Graph")
+      return 5;
+    if (f == "LC_CSR_CSC_Graph" || f == "LC_Linear_Graph")
+      return 3;
+    if (f == "LC_Adaptor_Graph")
+      return 1;
+    return 2;
+  };
+  std::map<std::string, std::vector<std::vector<const Entry*>*>> famOps;
   for (auto& g : groups)
     for (unsigned w = 0; w < std::max(1u, g.second[0]->weight); ++w)
-      groupList.push_back(&g.second);
+      famOps[g.first.first].push_back(&g.second);
+  std::vector<const std::vector<std::vector<const Entry*>*>*> famList;
+  for (auto& f : famOps)
+    for (unsigned w = 0; w < famWeight(f.first); ++w)
+      famList.push_back(&f.second);
   if (H.paramInt("list", 0)) {
     for (auto& e : registry())
       printf("%s %s %s %s\n", e.family.c_str(), e.op.c_str(), e.cfg.c_str(), e.etype.c_str());
@@ -499,7 +515,8 @@ int main(int argc, char** argv) {
 
   for (long k = H.firstCase(); k < H.endCase(); ++k) {
     Rng rng(mix(H.caseSeed(k), salt));
-    auto& group    = *groupList[rng.below(groupList.size())];
+    auto& ops      = *famList[rng.below(famList.size())];
+    auto& group    = *ops[rng.below(ops.size())];
     const Entry& E = *group[rng.below(group.size())];
 
     Ctx c;
@@ -536,7 +553,7 @@ int main(int argc, char** argv) {
       for (unsigned s = 0; s < (unsigned)ref::Shape::NumShapes; ++s)
         if (fShape == ref::shapeName((ref::Shape)s))
           shape = (ref::Shape)s;
-    uint64_t maxNodes = H.thorough ? (uint64_t)rng.pick({6, 40, 300, 2000, 6000, 12000})
+    uint64_t maxNodes = big ? (uint64_t)rng.pick({6, 40, 300, 2000, 6000, 12000})
                                    : (uint64_t)rng.pick({6, 40, 300, 1200, 3000});
     if (E.flags & F_SMALL)
       maxNodes = std::min<uint64_t>(maxNodes, 300);
@@ -637,7 +654,9 @@ int main(int argc, char** argv) {
               .kv("do_all_visits", c.doAllVisits).kv("v2_files", c.v2Files)
               .kv("multi_thread_cases", (int)(T > 1)).kv("multi_socket_cases", (int)(nsock > 1 && T > 1))
               .kv("empty_graph_cases", (int)(c.X.numNodes == 0)).kv("skipped", (int)c.skipped)
-              .kv("failed_cases", (int)c.failed).str());
+              .kv("failed_cases", (int)c.failed).kv(("cases_" + E.family).c_str(), 1)
+              .kv(("etype_" + E.etype).c_str(), 1).kv((std::string("shape_") + ref::shapeName(shape)).c_str(), 1)
+              .kv(("threads_" + std::string(tcl)).c_str(), 1).str());
   }
   rmdir(dir.c_str());
   return 0;
